@@ -405,7 +405,7 @@ fn worker<T: Pay>(id: usize, offset: bool) {
                     None => Res::Missing,
                     Some(h) => {
                         if kind >= 10 {
-                            // further entry points (free schedules only)
+                            // further entry points (make_mut and get_mut also in guided schedules)
                             let r = std::panic::catch_unwind(std::panic::AssertUnwindSafe(|| {
                                 // a handle held as an OffsetArc is copied-on-write through OffsetArc::make_mut
                                 if kind == 10 {
@@ -1035,7 +1035,7 @@ fn run_case_t<T: Pay>(ops: &[Vec<u64>]) -> Vec<Vec<u64>> {
                     }
                 }
             }
-            6 | 7 | 8 | 10 => match send(t, Cmd::Reserve) {
+            6 | 7 | 8 | 10 | 11 => match send(t, Cmd::Reserve) {
                 Msg::Done(Res::Unit) => {
                     c.owned[t] -= 1;
                     c.pending[t] = Some(kind);
